@@ -221,6 +221,12 @@ func makeDocs(c *fw.Ctx, n int) (docs []docFile, bad []docFile) {
 			if i%12 == 0 { // objects packed into Flate object streams written with an explicit /Predictor 1
 				lay.XRef, lay.ObjStm, lay.ObjStmFilter = []string{"stream"}, "all", "FlP1"
 			}
+			if i%12 == 3 || i%12 == 9 {
+				// pages sharing one inherited Resources dictionary, forms with their own
+				// resources that give the same font names another meaning
+				g = pdfw.GenDoc(r, pdfw.DocOpts{MinPages: 3, MaxPages: 5, MaxLines: 8, MaxFonts: 3, TreeDepth: 2, Inherit: []string{"root", "parent"}[i/12%2], NoEmptyPages: true, FontWidths: true})
+				lay.Forms, lay.FontNameRot, lay.FontsDirect, lay.ResIndirect = true, true, i%12 == 9, false
+			}
 			b := pdfw.Build(r.Int63(), lay, []*pdfw.Doc{g.Doc})
 			data, ext, kind, desc = b.Bytes, ".pdf", "pdf", fmt.Sprintf("pdf %d pages filter=%s xref=%v", len(g.Doc.Leaves()), lay.Filter, lay.XRef)
 		}
